@@ -199,6 +199,21 @@ class GuardEngine:
         return bool(prms) and all(p["pat"].get("k") == "PBind" and p["pat"].get("name") != "self" and
                                   not is_tracked_ty(p.get("ty", "")) and not is_data_ty(p.get("ty", "")) for p in prms)
 
+    def _scalar_or_check_helper(self, d):
+        return self._scalar_helper(d) or self._check_helper(d)
+
+    def _check_helper(self, d):
+        it = self.facts.items.get(d) or {}
+        prms = [p for p in it.get("params", []) if not (p["pat"].get("k") == "PBind" and p["pat"].get("name") == "self")]
+        body = self.facts.hir.get(d)
+        if not prms or body is None or it.get("ret", "()") not in ("()", "", None):
+            return False
+        if not all(p["pat"].get("k") == "PBind" and not is_tracked_ty(p.get("ty", "")) and not is_data_ty(p.get("ty", ""))
+                   for p in prms):
+            return False
+        return any(self.facts.ty(x) == "!" or (x.get("k") == "Macro" and x.get("name") in ("panic", "assert", "assert_eq"))
+                   for x in walk(body))
+
     # ------------------------------------------------------------------ summaries
     def summary(self, fpath):
         if fpath in self.memo:
@@ -209,10 +224,24 @@ class GuardEngine:
         it = self.facts.items.get(fpath)
         if body is None or it is None:
             return Summary()
-        if self.track_scalars and hasattr(self.facts, "inlined"):
-            # scalar-only private helpers (`ensure_scale(scale, bits)`, `admissible_bit_count(..)`) are read in place: their
-            # guards speak about values the caller computed (a modulus bit count handed down as a plain number)
-            body = self.facts.inlined(fpath, depth=1, pred=self._scalar_helper)
+        if hasattr(self.facts, "_inline"):
+            # Helpers read in place (built from THIS view's body, uncached, so scheme projections are respected):
+            #  - scalar-only private helpers (`ensure_scale(scale, bits)`, `admissible_bit_count(..)`): their guards speak about
+            #    values the caller computed (a modulus bit count handed down as a plain number)  [scalar-tracking engines]
+            #  - a private unit-returning checker that receives only values DERIVED from the operands
+            #    (`check_not_higher_level(x.parms_id(), target)`): its refusing branch speaks about the caller's operands
+            pred = self._scalar_or_check_helper if self.track_scalars else self._check_helper
+            hit = False
+            for x in walk(body):
+                f = callee(x) if x.get("k") in ("Call", "MCall") else None
+                if f and f.get("local"):
+                    d = f.get("inst") if f.get("inst") in self.facts.hir else f.get("def")
+                    if d != fpath and self.facts.inlinable(fpath, d) and pred(d):
+                        hit = True
+                        break
+            if hit:
+                self.facts._inl_counter = self.facts.__dict__.get("_inl_counter", 0)
+                body = self.facts._inline(body, fpath, 1, (fpath,), pred)
         self.stack.append(fpath)
         try:
             s = self._analyse(fpath, it, body)
